@@ -99,8 +99,8 @@ func genC16(t *rapid.T) c16Case {
 	if c.Runner {
 		n = (n + 7) / 8 * 8
 	}
-	if rapid.IntRange(0, 3).Draw(t, "pow2len") == 0 { // lengths that are multiples of 256: whole periods of every de Bruijn cycle up to order 8
-		n = (n + 255) / 256 * 256
+	if rapid.IntRange(0, 3).Draw(t, "pow2len") == 0 { // lengths that are multiples of 4096: whole periods of every de Bruijn cycle up to order 12
+		n = (n + 4095) / 4096 * 4096
 	}
 	c.Seq = gen.DrawSeq(t, n, extremeFamilies)
 	if c.Seq.Family == "biased" {
@@ -134,7 +134,8 @@ func TestC16Sweep(t *testing.T) {
 				for _, q := range []gen.Seq{{Family: "constant", N: n, A: 0}, {Family: "constant", N: n, A: 1}, {Family: "alternating", N: n},
 					{Family: "transition", N: n, A: 1, Pos: []int{n / 3}}, {Family: "biased", N: n, Seed: 5, F: 0.999}, {Family: "balanced", N: n, Seed: 6},
 					{Family: "sparse", N: n, A: 0, Pos: []int{n - 1}}, {Family: "uniform", N: n, Seed: 7},
-					{Family: "debruijn", N: (n + 255) / 256 * 256, A: 2}, {Family: "debruijn", N: (n + 255) / 256 * 256, A: 5, B: 3}, {Family: "debruijn", N: (n + 255) / 256 * 256, A: 8, Pos: []int{1}}} {
+					{Family: "debruijn", N: (n + 255) / 256 * 256, A: 2}, {Family: "debruijn", N: (n + 255) / 256 * 256, A: 5, B: 3}, {Family: "debruijn", N: (n + 255) / 256 * 256, A: 8, Pos: []int{1}},
+					{Family: "debruijn", N: (n + 4095) / 4096 * 4096, A: 10}, {Family: "debruijn", N: (n + 4095) / 4096 * 4096, A: 12, B: 77}, {Family: "debruijn", N: 22 * 1024 * ((n + 22527) / 22528), A: 10}} {
 					if n >= 10000000 && (q.Family == "balanced" || q.Family == "biased" || q.Family == "sparse") {
 						continue
 					}
